@@ -133,7 +133,8 @@ func isInjected(err error) bool {
 // step runs ctrl.Rotate once on a copy of st and evaluates the oracles that concern a single run:
 // O2 (a marker is written only when every table of its group carries the value) — always;
 // O1 (every data table matches the configuration) — when the run returned nil.
-func (x *explorer) step(st0 *fakeconn.State, cfg ctrlrun.Config, plan []fakeconn.Fault) *stepResult {
+// interrupted tells whether this run or an earlier run of the sequence was faulted (used only to explain findings).
+func (x *explorer) step(st0 *fakeconn.State, cfg ctrlrun.Config, plan []fakeconn.Fault, interrupted bool) *stepResult {
 	st := st0.Clone()
 	proc := fakeconn.NewProc(st, plan...)
 	r := &stepResult{st: st, proc: proc, altered: map[string]bool{}, alteredP: map[string]bool{}, alterOrd: map[int]bool{}}
@@ -217,12 +218,12 @@ func (x *explorer) step(st0 *fakeconn.State, cfg ctrlrun.Config, plan []fakeconn
 		}
 	}
 	if r.err == nil {
-		r.findings = append(r.findings, x.successOracle(r, cfg)...)
+		r.findings = append(r.findings, x.successOracle(r, cfg, interrupted || len(plan) > 0)...)
 	}
 	return r
 }
 
-func (x *explorer) successOracle(r *stepResult, cfg ctrlrun.Config) []finding {
+func (x *explorer) successOracle(r *stepResult, cfg ctrlrun.Config, interrupted bool) []finding {
 	var out []finding
 	for _, tn := range r.st.TableNames(dbName) {
 		t := r.st.Table(dbName, tn)
@@ -234,13 +235,15 @@ func (x *explorer) successOracle(r *stepResult, cfg ctrlrun.Config) []finding {
 			switch {
 			case !rotated:
 				out = append(out, finding{"data_table_not_rotated:" + tn, "after a successful run " + what + " — no run ever alters this table"})
-			case !r.altered[tn]:
-				out = append(out, finding{"stale_ttl_after_interrupted_change:" + tn,
-					"after a successful run " + what + " — the run issued no ALTER for the table (it trusted the recorded marker)"})
 			case kind == "overflow":
-				out = append(out, finding{"ttl_seconds_int32_overflow:" + tn, "after a successful run that altered the table " + what})
+				out = append(out, finding{"ttl_seconds_int32_overflow:" + tn, "after a successful run " + what})
 			case kind == "clamp":
-				out = append(out, finding{"clamp_not_applied:" + tn, "after a successful run that altered the table " + what})
+				out = append(out, finding{"clamp_not_applied:" + tn, "after a successful run " + what})
+			case !r.altered[tn] && interrupted:
+				out = append(out, finding{"stale_ttl_after_interrupted_change:" + tn,
+					"after a successful run " + what + " — the run issued no ALTER for the table (it trusted the recorded marker) and an earlier run of the sequence was interrupted"})
+			case !r.altered[tn]:
+				out = append(out, finding{"ttl_wrong_and_no_alter_issued:" + tn, "after a successful run " + what + " — the run issued no ALTER for the table"})
 			default:
 				out = append(out, finding{"wrong_ttl_applied:" + tn, "after a successful run that altered the table " + what})
 			}
@@ -250,8 +253,10 @@ func (x *explorer) successOracle(r *stepResult, cfg ctrlrun.Config) []finding {
 			switch {
 			case !rotated:
 				out = append(out, finding{"data_table_not_rotated:" + tn, what + " — no run ever alters this table"})
+			case !r.alteredP[tn] && interrupted:
+				out = append(out, finding{"stale_storage_policy_after_interrupted_change:" + tn, what + " — the run issued no ALTER for the table (it trusted the recorded marker) and an earlier run of the sequence was interrupted"})
 			case !r.alteredP[tn]:
-				out = append(out, finding{"stale_storage_policy_after_interrupted_change:" + tn, what + " — the run issued no ALTER for the table (it trusted the recorded marker)"})
+				out = append(out, finding{"storage_policy_wrong_and_no_alter_issued:" + tn, what + " — the run issued no ALTER for the table"})
 			default:
 				out = append(out, finding{"wrong_storage_policy_applied:" + tn, what})
 			}
@@ -484,7 +489,7 @@ func (x *explorer) expand(n *node, cfgs []ctrlrun.Config) *expansion {
 	}
 	for _, cfg := range cfgs {
 		// uninterrupted run
-		clean := x.step(n.st, cfg, nil)
+		clean := x.step(n.st, cfg, nil, n.faults > 0)
 		ex.runs++
 		runs := append(append([]runSpec(nil), base...), runSpec{cfg, nil})
 		add(runs, "", clean.findings)
@@ -497,7 +502,7 @@ func (x *explorer) expand(n *node, cfgs []ctrlrun.Config) *expansion {
 			add(runs, "", []finding{x.classifyFailure("uninterrupted_run_fails", clean)})
 		} else {
 			// O3: an immediate re-run with the same configuration issues no ALTER
-			again := x.step(clean.st, cfg, nil)
+			again := x.step(clean.st, cfg, nil, n.faults > 0)
 			ex.runs++
 			rr := append(append([]runSpec(nil), runs...), runSpec{cfg, nil})
 			add(rr, "rerun", again.findings)
@@ -531,7 +536,7 @@ func (x *explorer) expand(n *node, cfgs []ctrlrun.Config) *expansion {
 			ex.kinds[stmtKind(clean.proc.Log[i])] += int64(len(positions))
 			for _, pos := range positions {
 				plan := []fakeconn.Fault{{Index: i, Pos: pos}}
-				in := x.step(n.st, cfg, plan)
+				in := x.step(n.st, cfg, plan, true)
 				ex.runs++
 				fr := append(append([]runSpec(nil), base...), runSpec{cfg, plan})
 				add(fr, "", in.findings)
@@ -544,7 +549,7 @@ func (x *explorer) expand(n *node, cfgs []ctrlrun.Config) *expansion {
 				}
 				ex.succ = append(ex.succ, succ{in.st, runSpec{cfg, plan}, n.faults + 1})
 				// O4: the next run with the same configuration completes the interrupted one
-				fin := x.step(in.st, cfg, nil)
+				fin := x.step(in.st, cfg, nil, true)
 				ex.runs++
 				nr := append(append([]runSpec(nil), fr...), runSpec{cfg, nil})
 				add(nr, "next_run", fin.findings)
@@ -764,10 +769,11 @@ func plans(thorough bool) []plan {
 	}
 	if thorough {
 		out = append(out,
-			plan{"A6", false, "", alphabet(false, []int{7}, p3, []string{"", "p1"}), 2},
-			plan{"A4", true, "", alphabet(true, []int{7}, [][]ctrlrun.Policy{polNone, pol30s}, []string{"", "p1"}), 2},
+			// cheapest first: a run cut short by its deadline reports what it finished
 			plan{"A24", false, "p1", alphabet(false, []int{1, 7}, [][]ctrlrun.Policy{polNone, pol30s, pol2h48h, pol100y}, []string{"", "p1", "p2"}), 1},
 			plan{"A24", true, "", alphabet(true, []int{1, 7}, [][]ctrlrun.Policy{polNone, pol30s, pol2h48h, pol100y}, []string{"", "p1", "p2"}), 1},
+			plan{"A4", true, "", alphabet(true, []int{7}, [][]ctrlrun.Policy{polNone, pol30s}, []string{"", "p1"}), 2},
+			plan{"A6", false, "", alphabet(false, []int{7}, p3, []string{"", "p1"}), 2},
 		)
 	}
 	return out
@@ -787,8 +793,10 @@ func replay(r *ev.Run) {
 	x := &explorer{r: r, cluster: doc.Replay.Cluster, initPolicy: doc.Replay.InitPolicy, faultKinds: map[string]int64{}, outcomes: map[string]int64{}}
 	st := x.initialState()
 	x.deriveGroups(st)
+	interrupted := false
 	for i, s := range doc.Replay.Runs {
-		res := x.step(st, s.Config, s.Faults)
+		res := x.step(st, s.Config, s.Faults, interrupted)
+		interrupted = interrupted || len(s.Faults) > 0
 		fmt.Printf("run %d %s faults=%v: returned %v; %d statements, %d ALTER\n", i+1, s.Config.Name, s.Faults, res.err, len(res.proc.Log), res.alters)
 		for _, e := range res.proc.Log {
 			mark := ""
@@ -831,7 +839,7 @@ func replay(r *ev.Run) {
 
 func main() {
 	debug.SetGCPercent(200)
-	r := ev.Start("C19", "model_checking", 60*time.Second, 15*time.Minute)
+	r := ev.Start("C19", "model_checking", 75*time.Second, 15*time.Minute)
 	r.Rule = "level-synchronous BFS over states (canonical catalogue of the fake server: TTL elements, storage policy, settings of every table + collapsed rows of `settings`); " +
 		"a transition is one real run of ctrl.Rotate with any configuration of the alphabet and no fault or one fault (statement index × {error before effect, effect then error, effect then kill}); " +
 		"sequences of ≤ 3 runs; after every successful run an immediate re-run, after every interrupted run the completing run are checked"
